@@ -11,6 +11,7 @@ LEAN_MODULES = ['MV.Props.C16']
 LEAN_HELPERS = ['MV.Lemmas.Ornament', 'MV.Model.Ornament', 'MV.Model.Basic', 'MV.Model.Types']
 DRIVERS = ['C16']
 GEN = ['Tables', 'Library']
+SRC_TIE = ['SrcOrn']   # py2lean source images of the 15 ornament builders and realize_tags proved equal to the model (MV/Props/TieSrcOrn.lean)
 RULE = ('note stream: every tag x every STR_TO_DURATION value x (previous: none/note/rest) x (next: none/up/down/'
         'same/rest), every tag pair x every table duration, tag triples and random tag sets on table durations, '
         'small rationals and rationals with denominators near LIMIT_DENOM; melody/score/rows streams: random tagged '
@@ -23,7 +24,10 @@ TRUSTED = ['model of ornementation.py / Note.set_duration / Melody.set_duration 
            'the theorems only use `den <= max => identity`',
            'int(7 * val / 12) (float division) is modelled as exact truncation: |val| < 2**40',
            'rows streams: only the OFFSET / DURATION / TRACK columns of to_midi.get_notes are observed; the pitch '
-           'calculus is stubbed (harness-side monkey patch of to_midi.note_to_pitch_result) while rows are produced']
+           'calculus is stubbed (harness-side monkey patch of to_midi.note_to_pitch_result) while rows are produced',
+           'source tie SrcOrn: the spec bindings of harness/srcgroups/SrcOrn.py / MV/Model/OrnPy.lean (what .duration, '
+           '.set_duration, .n, +, None + x, .set_amp, .clear_note_tags, .amp do on None / Note / Melody, L.su1 … L.l as the '
+           'model constants), validated against the real functions by the streams src:orn_builder / src:orn_realize']
 ASSUMPTIONS = ['part names are not drums parts (Chord.__call__ converts drums melodies)',
                'the rounded arithmetic (limit_denominator(1000)) equals exact arithmetic when every piece of every '
                'intermediate figure has a denominator <= 1000 (theorem realize_eq_exact); outside that class the code '
@@ -361,6 +365,10 @@ def correspondence(ctx):
                        'input': {'score': sp}, 'bucket': b, 'nontrivial': tagged})
     ctx.compare('score', 'C16', cases)
     ctx.compare('rows', 'C16', cases2)
+
+    # --- source tie (DESIGN §9.6): the builders and realize_tags at function level, against the model and the source image
+    import srctie
+    srctie.run(ctx, SRC_TIE, quick=200, thorough=3000)      # per builder; 4x for realize_tags
 
 
 def _limit():
